@@ -23,6 +23,7 @@ import (
 	"os"
 	"path/filepath"
 	"strconv"
+	"slices"
 	"strings"
 	"sync"
 
@@ -458,13 +459,24 @@ type routeObs struct {
 	params [][2]string
 }
 
-func serveAlone(p string, vals []string) (ro routeObs) {
+// epObs is what one entry point reported for the request
+type epObs struct {
+	name   string
+	found  bool
+	params [][2]string
+	hasPar bool // the entry point reports parameters (Reverse does not)
+}
+
+// serveAlone registers p as the only route, builds the request by substituting vals for the
+// wildcards and sends it through EVERY entry point that promises routing: ServeHTTP,
+// Router.Lookup, Txn.Lookup (parameters) and Router.Reverse, Txn.Reverse, Iter.Reverse (route
+// only). With escaped=true the path is an escaped request target (it contains %XX): the URL is
+// parsed as net/http does, so URL.Path is decoded and URL.RawPath keeps the escaped text; fox
+// documents that routing uses RawPath when set, so the values reported must be the escaped
+// text, which is what reproduces the request. ok=false: the target cannot be expressed
+// (net/http would not keep it in URL.RawPath), the case is skipped.
+func serveAlone(p string, vals []string, escaped bool) (ro routeObs, eps []epObs, ok bool) {
 	ro.vals = vals
-	defer func() {
-		if r := recover(); r != nil {
-			ro.found = false
-		}
-	}()
 	ts := tokenize(p)
 	var sb strings.Builder
 	vi := 0
@@ -481,30 +493,100 @@ func serveAlone(p string, vals []string) (ro routeObs) {
 	ro.req = sb.String()
 	cut := strings.IndexByte(ro.req, '/')
 	if cut < 0 {
-		return
+		return ro, nil, false
 	}
 	host, path := ro.req[:cut], ro.req[cut:]
+	u := &url.URL{Path: path}
+	if escaped {
+		pu, err := url.ParseRequestURI(path)
+		// only targets for which net/http keeps the escaped text (URL.RawPath == target): otherwise
+		// fox routes on the decoded URL.Path and the request text it sees is not the one built here
+		if err != nil || pu.RawPath != path || pu.RawQuery != "" {
+			return ro, nil, false
+		}
+		u = pu
+	}
 	r, err := fox.New()
 	if err != nil {
-		return
+		return ro, nil, false
 	}
 	called := 0
 	var got string
+	var served [][2]string
 	if _, err = r.Handle(http.MethodGet, p, func(c fox.Context) {
 		called++
 		got = c.Pattern()
 		for pr := range c.Params() {
-			ro.params = append(ro.params, [2]string{pr.Key, pr.Value})
+			served = append(served, [2]string{pr.Key, pr.Value})
 		}
 	}); err != nil {
-		return
+		return ro, nil, false
 	}
-	req := &http.Request{Method: http.MethodGet, Host: host, URL: &url.URL{Path: path}, Header: http.Header{}, Proto: "HTTP/1.1", ProtoMajor: 1, ProtoMinor: 1}
-	w := httptest.NewRecorder()
-	r.ServeHTTP(w, req)
-	rte, tsr := r.Reverse(http.MethodGet, host, path)
-	ro.found = called == 1 && got == p && rte != nil && rte.Pattern() == p && !tsr
-	return
+	newReq := func() *http.Request {
+		cu := *u
+		return &http.Request{Method: http.MethodGet, Host: host, URL: &cu, Header: http.Header{}, Proto: "HTTP/1.1", ProtoMajor: 1, ProtoMinor: 1}
+	}
+	guard := func(name string, hasPar bool, f func(e *epObs)) {
+		e := epObs{name: name, hasPar: hasPar}
+		func() {
+			defer func() {
+				if rec := recover(); rec != nil {
+					e.found = false
+				}
+			}()
+			f(&e)
+		}()
+		eps = append(eps, e)
+	}
+	guard("ServeHTTP", true, func(e *epObs) {
+		r.ServeHTTP(httptest.NewRecorder(), newReq())
+		e.found = called == 1 && got == p
+		e.params = served
+	})
+	fromLookup := func(e *epObs, rte *fox.Route, cc fox.ContextCloser, tsr bool) {
+		e.found = rte != nil && rte.Pattern() == p && !tsr
+		if cc != nil {
+			for pr := range cc.Params() {
+				e.params = append(e.params, [2]string{pr.Key, pr.Value})
+			}
+			cc.Close()
+		}
+	}
+	guard("Router.Lookup", true, func(e *epObs) {
+		rte, cc, tsr := r.Lookup(nil, newReq())
+		fromLookup(e, rte, cc, tsr)
+	})
+	guard("Txn.Lookup", true, func(e *epObs) {
+		_ = r.View(func(txn *fox.Txn) error {
+			rte, cc, tsr := txn.Lookup(nil, newReq())
+			fromLookup(e, rte, cc, tsr)
+			return nil
+		})
+	})
+	// the Reverse family takes the path to route as a string: the escaped text
+	guard("Router.Reverse", false, func(e *epObs) {
+		rte, tsr := r.Reverse(http.MethodGet, host, path)
+		e.found = rte != nil && rte.Pattern() == p && !tsr
+	})
+	guard("Txn.Reverse", false, func(e *epObs) {
+		_ = r.View(func(txn *fox.Txn) error {
+			rte, tsr := txn.Reverse(http.MethodGet, host, path)
+			e.found = rte != nil && rte.Pattern() == p && !tsr
+			return nil
+		})
+	})
+	guard("Iter.Reverse", false, func(e *epObs) {
+		n := 0
+		for m, rte := range r.Iter().Reverse(slices.Values([]string{http.MethodGet}), host, path) {
+			if m == http.MethodGet && rte != nil && rte.Pattern() == p {
+				n++
+			} else {
+				n = -100
+			}
+		}
+		e.found = n == 1
+	})
+	return ro, eps, true
 }
 
 var paramVals = []string{"a", "b", "ab", "x1", "v-w"}
@@ -515,26 +597,40 @@ var catchVals = []string{"a", "b", "a/b", "ab/c/d", "x1/y"}
 var hostileParamVals = []string{"{x", "{", "*y", "*", "{x}", "*{x}", "a{b", "a*", "}", "{{", "{a}{b}"}
 var hostileCatchVals = []string{"{x", "*y", "{x}/b", "a/{b}/c", "*{c}", "a/*", "{", "x{y/z*"}
 
+// escaped request-target text for path wildcards: %2F inside a value, needless and lower-case
+// escapes; every one of them makes URL.RawPath non-empty
+var escapedParamVals = []string{"a%2Fb", "%2F", "%41", "x%2fy", "%7bz%7d", "a%2fb%20c", "%25%41", "%2E%2E"}
+var escapedCatchVals = []string{"a%2Fb", "a%2Fb/c", "%41/b", "x/%2f/y", "a%2F/b%20c", "%2F"}
+
 // pickVals chooses one value per wildcard; hostile = 0 ordinary, 1 hostile values,
 // 2 the wildcard's own text ("{name}" / "*{name}") as its value
 func pickVals(rnd *hx.Rand, p string, hostile int) []string {
 	var vs []string
+	inPath := false
 	for _, t := range tokenize(p) {
 		switch t.kind {
+		case 's':
+			if t.text == "/" {
+				inPath = true
+			}
 		case 'p':
 			switch {
+			case hostile == 3 && inPath:
+				vs = append(vs, hx.Pick(rnd, escapedParamVals))
 			case hostile == 2:
 				vs = append(vs, "{"+strings.NewReplacer("/", "", ".", "").Replace(t.text)+"}")
-			case hostile == 1 || rnd.Pct(15):
+			case hostile == 1 || (hostile == 0 && rnd.Pct(15)):
 				vs = append(vs, hx.Pick(rnd, hostileParamVals))
 			default:
 				vs = append(vs, hx.Pick(rnd, paramVals))
 			}
 		case 'c':
 			switch {
+			case hostile == 3:
+				vs = append(vs, hx.Pick(rnd, escapedCatchVals))
 			case hostile == 2:
 				vs = append(vs, "*{"+t.text+"}")
-			case hostile == 1 || rnd.Pct(15):
+			case hostile == 1 || (hostile == 0 && rnd.Pct(15)):
 				vs = append(vs, hx.Pick(rnd, hostileCatchVals))
 			default:
 				vs = append(vs, hx.Pick(rnd, catchVals))
@@ -542,6 +638,12 @@ func pickVals(rnd *hx.Rand, p string, hostile int) []string {
 		}
 	}
 	return vs
+}
+
+// hasPathWild: some wildcard after the first '/'
+func hasPathWild(p string) bool {
+	i := strings.IndexByte(p, '/')
+	return i >= 0 && strings.ContainsAny(p[i:], "{")
 }
 
 func routeTerm(p string, ro routeObs) (string, string) {
@@ -1033,26 +1135,66 @@ func main() {
 			}
 		}
 		seenVals := map[string]bool{}
-		for c := 0; c < nroute+2; c++ {
-			// the last two rounds use values made of pattern syntax ('{', '*', the wildcard's own text)
+		for c := 0; c < nroute+3; c++ {
+			// the last three rounds use values made of pattern syntax ('{', '*'), the wildcard's own
+			// text, and escaped request-target text (%2F, %41, ...: URL.RawPath is set)
 			hostile := 0
 			if c >= nroute {
 				hostile = c - nroute + 1
+			}
+			if hostile == 3 && !hasPathWild(p) {
+				continue
 			}
 			vals := pickVals(rnd, p, hostile)
 			if hostile > 0 {
 				if len(vals) == 0 {
 					continue
 				}
-				st.Count("kind:route-alone-syntax-values")
+				if hostile == 3 {
+					st.Count("kind:route-alone-escaped-values")
+				} else {
+					st.Count("kind:route-alone-syntax-values")
+				}
 			}
 			k := strings.Join(vals, "\x00")
 			if seenVals[k] {
 				continue
 			}
 			seenVals[k] = true
-			ro := serveAlone(p, vals)
+			ro, eps, ok := serveAlone(p, vals, hostile == 3)
+			if !ok {
+				st.Count("kind:route-alone-skipped(target not expressible)")
+				continue
+			}
+			// one case for ServeHTTP; every other entry point must report the same: an entry point
+			// whose observation differs gets its own case (identical observations have identical verdicts)
+			ro.found, ro.params = eps[0].found, eps[0].params
 			t, h := routeTerm(p, ro)
+			h = "via ServeHTTP: " + h
+			for _, e := range eps[1:] {
+				st.Count("entry:" + e.name)
+				evals++
+				same := e.found == eps[0].found
+				if e.hasPar && same {
+					same = fmt.Sprint(e.params) == fmt.Sprint(eps[0].params)
+				}
+				if same {
+					continue
+				}
+				ro2 := ro
+				ro2.found = e.found
+				if e.hasPar {
+					ro2.params = e.params
+				} else if !e.found {
+					ro2.params = eps[0].params
+				}
+				t2, h2 := routeTerm(p, ro2)
+				if e.found && !e.hasPar && !eps[0].found {
+					continue // Reverse found the route while ServeHTTP did not: the ServeHTTP case reports it
+				}
+				col.add(t2, "via "+e.name+" (differs from ServeHTTP): "+h2, 1)
+				st.Count("kind:route-alone-entry-point-differs")
+			}
 			col.add(t, h, 1)
 			evals++
 			st.Count("kind:route-alone")
